@@ -105,6 +105,8 @@ def units():
                     m2 = m % {'S': sz, 'V': vpat % sz}
                     add('op.%s.%s.%s.%s' % (m2.split('__')[0] + '_' + m2.split('__')[1][:12], fl, et, sz), (vpat % sz) + '__' + m2, pp, fnum, bpat % sz, sz, elem,
                         throws_reachable=not m2.startswith(('op_eq', 'op_lt', 'pop_back_val', 'op_index', 'data', 'end', 'front', 'back', 'cend')))
+                    if m2.startswith(('end', 'cend', 'data', 'front', 'back')):
+                        us[-1]['defs'].update({'ACC_IS_END': '1' if m2.startswith(('end', 'cend')) else '0', 'ACC_IS_BACK': '1' if m2.startswith('back') else '0'})
                 for m, props, ek in L2D:
                     if ek == 3 and elem == 'ElemTC':
                         continue        # ElemTC is an aggregate: no constructor from int
